@@ -2,6 +2,7 @@
 # the datagram parser, extracted from src/dtls.rs; body parsers and the 13-byte header parser abstract.
 import os, sys
 sys.path.insert(0, os.path.dirname(os.path.abspath(__file__)))
+from derived_common import newtype_items, INT_SHIMS
 from states import UNIT as _ST, adt, F_HS, F_MSG, F_AL, F_EC
 
 F_REC = "src/tls_record.rs"
@@ -100,6 +101,7 @@ pub open spec fn dtls_record_post(i: Seq<u8>, r: IResult<&[u8], DTLSPlaintext>) 
 
 UNIT = {
     "name": "dtls",
+    "needs_expanded": True,
     "property": ["C10", "C16", "C06"],
     "prelude": ["shim_nom.rs"],
     "items": _types + [
@@ -143,9 +145,37 @@ UNIT = {
          "contract": """
     ensures dtls_hs_post(i@, r),
 """},
-        {"file": F_DTLS, "kind": "fn", "name": "parse_dtls_record_header", "external_body": True, "contract": """
+        {"file": "-", "kind": "inline", "name": "dtls-header-proof", "text": INT_SHIMS + r'''
+#[verifier::external_body]
+pub fn be_u64<'a>(i: &'a [u8]) -> (r: IResult<&'a [u8], u64>)      // ASSUMED; OBLIGATION of Kani shim_be64
+    ensures be_post(8, i@, r, |v: u64| v as int),
+{ unimplemented!() }
+// the 64-bit word read after type and version: epoch in the top 16 bits, sequence number in the low 48
+pub proof fn lemma_epoch_seq_split(hi: u64, lo: u64)
+    requires hi < 0x1_0000, lo < 0x1_0000_0000_0000,
+    ensures ({ let w = (hi * 0x1_0000_0000_0000 + lo) as u64; (w >> 48) == hi && (w & 0xffff_ffff_ffff) == lo }),
+{
+    assert(hi < 0x1_0000 && lo < 0x1_0000_0000_0000 ==> (((hi * 0x1_0000_0000_0000 + lo) as u64) >> 48) == hi && (((hi * 0x1_0000_0000_0000 + lo) as u64) & 0xffff_ffff_ffff) == lo) by (bit_vector);
+}
+'''},
+    ] + newtype_items("TlsRecordType", 1) + newtype_items("TlsVersion", 2) + [
+        {"file": F_DTLS, "kind": "fn", "name": "parse_dtls_record_header", "contract": """
     ensures dtls_header_post(i@, r),
-"""},
+""", "splices": [
+            {"at_start": True, "text": "    let ghost i0 = i@;\n    proof { reveal_with_fuel(be_val, 9); }"},
+            {"after": r"let \(i, content_type\) = [^;]*;", "text": "    proof { assert(content_type.0 == i0[0]); assert(i@ =~= i0.subrange(1, i0.len() as int)); }"},
+            {"after": r"let \(i, version\) = [^;]*;", "text": "    let ghost ia = i@;\n    proof { assert(version.0 as int == be16s(i0, 1)); assert(ia =~= i0.subrange(3, i0.len() as int)); }"},
+            {"after": r"let \(i, int0\) = [^;]*;", "text": """    proof {
+        assert(ia.len() >= 8);
+        assert(ia[0] == i0[3] && ia[1] == i0[4] && ia[2] == i0[5] && ia[3] == i0[6] && ia[4] == i0[7] && ia[5] == i0[8] && ia[6] == i0[9] && ia[7] == i0[10]);
+        let hi = be16s(i0, 3); let lo = seq48(i0);
+        assert(int0 as int == hi * 0x1_0000_0000_0000 + lo);
+        lemma_epoch_seq_split(hi as u64, lo as u64);
+        assert(i@ =~= i0.subrange(11, i0.len() as int));
+    }"""},
+            {"after": r"let sequence_number = [^;]*;", "text": "    proof { assert(epoch as int == be16s(i0, 3)); assert(sequence_number as int == seq48(i0)); }"},
+            {"after": r"let \(i, length\) = [^;]*;", "text": "    proof { assert(length as int == be16s(i0, 11)); assert(i@ =~= i0.subrange(13, i0.len() as int)); }"},
+        ]},
         {"file": F_DTLS, "kind": "fn", "name": "parse_dtls_record_with_header", "external_body": True, "contract": """
     ensures r == spec_dtls_prwh(i@, *hdr),
 """},
